@@ -107,8 +107,8 @@ PROPS = {
     ),
     'C12': dict(
         title='modifiers', proj='proj_full', oracle='c12',
-        quick=[S_('probes', nc=1, items=('odd_defaults_c12', 'hint_history')), S_('bindcall'), S_('pok'), S_('pokm'), S_('pokmforms'), S_('pokstacked'), S_('poknames'), S_('modorder', oracle='c18'), S_('lateattr', nc=1, oracle='c18')],
-        thorough=[S_('probes', nc=1, items=('odd_defaults_c12', 'hint_history')), S_('bindcall'), S_('pok', nc=64), S_('pokm'), S_('pokmforms'), S_('pokstacked'), S_('poknames'), S_('modorder', oracle='c18'), S_('lateattr', nc=1, oracle='c18')],
+        quick=[S_('probes', nc=1, items=('odd_defaults_c12', 'hint_history', 'pok_receiver')), S_('bindcall'), S_('pok'), S_('pokm'), S_('pokmforms'), S_('pokstacked'), S_('poknames'), S_('modorder', oracle='c18'), S_('lateattr', nc=1, oracle='c18')],
+        thorough=[S_('probes', nc=1, items=('odd_defaults_c12', 'hint_history', 'pok_receiver')), S_('bindcall'), S_('pok', nc=64), S_('pokm'), S_('pokmforms'), S_('pokstacked'), S_('poknames'), S_('modorder', oracle='c18'), S_('lateattr', nc=1, oracle='c18')],
         runtime_part='descriptor binding of the translator object, functools.update_wrapper',
         level_text='prepare (advertised signature, admissibility) and the call translation are modelled branch by branch; exactness of the translated call '
                    'w.r.t. a native function of the advertised signature is a theorem over a value-level model of CPython binding. Correspondence: every '
